@@ -138,6 +138,7 @@ def L(x):
 
 def lab_of(case):
     """nodes may be labelled with strings whose order is that of the integers they stand for"""
+    if case.get('strlabels') == 'big': return lambda n: int(str(1000 + n))      # equal integers that are not the same object (beyond the small-int cache)
     if case.get('strlabels') == 'tuple': return lambda n: ('t', n)         # tuple labels (lattice coordinates and the like), ordered as the integers
     if case.get('strlabels'): return lambda n: f"n{n:03d}"
     return lambda n: n
